@@ -6,10 +6,10 @@ F = 'crates/aranya-policy-vm/src/machine.rs'
 IMPL = r"impl<'a, M> RunState<'a, M>"
 M = 'machine::verif_kani::'
 HARNESS_FILES = ['kani/aranya-policy-vm/machine.rs']
-OPS = ['next', 'last', 'pop_empty', 'dup_empty', 'restoresp_empty', 'end_noblock', 'block', 'add_empty', 'not_empty',
+OPS = ['next', 'last', 'pop_empty', 'restoresp_empty', 'end_noblock', 'block', 'add_empty', 'not_empty',
        'return_nocall', 'exit_normal', 'jump_sym', 'branch_empty', 'call_sym']
 
-SLOW = {'dup_empty', 'not_empty'}
+SLOW = {'not_empty'}   # 'dup_empty' (Dup on an empty stack) exceeded 25 min / 23 GB of CBMC and is kept unregistered
 
 UNITS = [
     Kani(M + 'c25_step_' + op, 'aranya-policy-vm', [Fn(F, 'step', IMPL)], kind='bounded',
